@@ -37,3 +37,25 @@ REORDER = r"""
 """
 REORDER_ASSUMPTION = {"what": "in-place sorts / reverse / dedup / retain on a vector are replaced by verif_reorder(): the result is an arbitrary vector",
                       "keys": ["fn verif_reorder"], "count": 1}
+
+
+# R11: iterator that a desugared `for x in vec` consumes
+VERIF_ITER = r"""
+#[verifier::external_body] #[verifier::reject_recursive_types(T)]
+pub struct VerifIter<T> { _p: core::marker::PhantomData<T> }
+impl<T> VerifIter<T> {
+    pub uninterp spec fn all(&self) -> Seq<T>;
+    pub uninterp spec fn pos(&self) -> int;
+    #[verifier::external_body]
+    pub fn next(&mut self) -> (r: Option<T>)
+        ensures
+            final(self).all() == old(self).all(),
+            (0 <= old(self).pos() < old(self).all().len()) ==> (r == Some(old(self).all()[old(self).pos()]) && final(self).pos() == old(self).pos() + 1),
+            old(self).pos() >= old(self).all().len() ==> (r is None && final(self).pos() == old(self).pos()),
+    { unimplemented!() }
+}
+#[verifier::external_body]
+pub fn verif_into_iter<T>(v: Vec<T>) -> (r: VerifIter<T>) ensures r.all() == v@, r.pos() == 0, { unimplemented!() }
+"""
+VERIF_ITER_ASSUMPTION = {"what": "R11: `for x in vec` is `let mut it = vec.into_iter(); while let Some(x) = it.next()`: VerifIter yields the elements of the vector in order, once",
+                         "keys": ["struct VerifIter", "fn all", "fn pos", "fn next", "fn verif_into_iter"]}
